@@ -5,6 +5,9 @@ package main
 // what it gets alone (oracle only; the forced-schedule legs cover plan construction).
 
 import (
+	"time"
+	"net"
+	"github.com/ovh/kmip-go/payloads"
 	"bytes"
 	"fmt"
 	"math/big"
@@ -28,6 +31,19 @@ func c20ConcurrentKeys(c *h.Ctx) {
 		privs[i] = &kmip.PrivateKey{KeyBlock: kmip.KeyBlock{KeyFormatType: kmip.KeyFormatTypeTransparentECPrivateKey, KeyValue: &kmip.KeyValue{Plain: &kmip.PlainKeyValue{
 			KeyMaterial: kmip.KeyMaterial{TransparentECPrivateKey: &kmip.TransparentECPrivateKey{RecommendedCurve: kmip.RecommendedCurveP_256, D: *new(big.Int).Add(mod, big.NewInt(int64(i)))}}}}}}
 	}
+	// messages of different protocol versions carrying gated elements (each goroutine its own version)
+	vers := []kmip.ProtocolVersion{kmip.V1_0, kmip.V1_1, kmip.V1_2, kmip.V1_3, kmip.V1_4}
+	msgs := make([]*kmip.RequestMessage, n)
+	for i := range msgs {
+		t := true
+		salt := int32(8 + i)
+		msgs[i] = &kmip.RequestMessage{Header: kmip.RequestHeader{ProtocolVersion: vers[i%len(vers)], ClientCorrelationValue: fmt.Sprintf("corr-%d", i), BatchCount: 2},
+			BatchItem: []kmip.RequestBatchItem{
+				{Operation: kmip.OperationLocate, UniqueBatchItemID: []byte{1}, RequestPayload: &payloads.LocateRequestPayload{MaximumItems: int32(1 + i), OffsetItems: int32(2 + i), ObjectGroupMember: kmip.ObjectGroupMember(1)}},
+				{Operation: kmip.OperationEncrypt, UniqueBatchItemID: []byte{2}, RequestPayload: &payloads.EncryptRequestPayload{UniqueIdentifier: "k", Data: []byte{byte(i)},
+					CryptographicParameters: &kmip.CryptographicParameters{BlockCipherMode: kmip.BlockCipherModeGCM, RandomIV: &t, TagLength: 16, SaltLength: &salt}}},
+			}}
+	}
 	type enc struct {
 		name string
 		f    func(any) []byte
@@ -40,8 +56,18 @@ func c20ConcurrentKeys(c *h.Ctx) {
 			}
 		}()
 		for _, e := range encs {
-			out = append(out, append([]byte{}, e.f(keys[i])...), append([]byte{}, e.f(privs[i])...))
+			out = append(out, append([]byte{}, e.f(keys[i])...), append([]byte{}, e.f(privs[i])...), append([]byte{}, e.f(msgs[i])...))
 		}
+		// decodings of three different types in a row (the per-type decode plans alternate)
+		var m2 kmip.RequestMessage
+		var p2 kmip.PrivateKey
+		if err := ttlv.UnmarshalTTLV(out[2], &m2); err != nil {
+			return out, "decode message: " + err.Error()
+		}
+		if err := ttlv.UnmarshalTTLV(out[1], &p2); err != nil {
+			return out, "decode private key: " + err.Error()
+		}
+		out = append(out, append([]byte{}, ttlv.MarshalTTLV(&m2)...), append([]byte{}, ttlv.MarshalTTLV(&p2)...))
 		// and the decoding of the binary form, re-encoded
 		var k2 kmip.PublicKey
 		if err := ttlv.UnmarshalTTLV(out[0], &k2); err != nil {
@@ -80,6 +106,37 @@ func c20ConcurrentKeys(c *h.Ctx) {
 		}(g)
 	}
 	wg.Wait()
+	// a message received from a stream stays what it was when later messages arrive on that stream
+	func() {
+		defer func() { _ = recover() }()
+		a, b := net.Pipe()
+		defer a.Close()
+		defer b.Close()
+		go func() {
+			st := ttlv.NewStream(b, -1)
+			for i := 0; i < 4; i++ {
+				if st.Send(msgs[i]) != nil {
+					return
+				}
+			}
+		}()
+		st := ttlv.NewStream(a, -1)
+		var got [4]kmip.RequestMessage
+		var first [4][]byte
+		for i := 0; i < 4; i++ {
+			_ = a.SetReadDeadline(time.Now().Add(3 * time.Second))
+			if err := st.Recv(&got[i]); err != nil {
+				return
+			}
+			first[i] = append([]byte{}, ttlv.MarshalTTLV(&got[i])...)
+		}
+		for i := 0; i < 4; i++ {
+			if !bytes.Equal(first[i], ttlv.MarshalTTLV(&got[i])) {
+				c.Fail("C20/received-message-changed-by-later-receive", fmt.Sprintf("message %d received from a stream re-encodes differently after the following messages were received on the same stream", i), map[string]any{"mode": "concurrent-keys", "message": i})
+				break
+			}
+		}
+	}()
 	c.Eval("concurrent-transparent-keys", true)
 	c.Count("leg:concurrent-transparent-keys")
 	for g, s := range bad {
